@@ -39,6 +39,9 @@ type LoopSpec struct {
 	Havoc      bool // the loop body is not verified at all: everything it assigns becomes arbitrary
 	Modifies   []*Clause
 	Lets       []*Clause
+	Uses       []*Clause // lemma instances assumed at the loop head (may mention the loop variables)
+	Isolated   bool      // back-edge obligations see only what is assumed from the loop head on (invariants must be self-contained)
+	Asserts    []*Clause // proved at every back edge (in order), then available to the invariant-preservation obligations
 }
 
 type CallSpec struct {
@@ -54,6 +57,7 @@ type FuncContract struct {
 	Preludes []string
 	Requires []*Clause
 	Ensures  []*Clause
+	AssumedEnsures []*Clause // postconditions that callers may assume although this run does not prove them (listed in the evidence)
 	Panics   []*Clause // function panics exactly when (disjunction)
 	MayPanic bool      // panics are allowed without characterisation (only for callers' benefit: reach is cut)
 	Modifies []*Clause
@@ -117,7 +121,7 @@ var clauseKeywords = map[string]bool{
 	"func": true, "lemma": true, "axiom": true, "mode": true, "prelude": true, "requires": true, "ensures": true, "panics": true,
 	"maypanic": true, "modifies": true, "loop": true, "invariant": true, "decreases": true, "unroll": true, "witness": true,
 	"let": true, "postlet": true, "trusted": true, "inline": true, "pure": true, "use": true, "postuse": true, "opaque": true,
-	"havoc": true, "nosafety": true, "assume": true, "param": true, "loopmodifies": true, "looplet": true, "bits": true, "end": true, "macro": true, "cases": true, "ghostview": true,
+	"havoc": true, "nosafety": true, "assume": true, "param": true, "loopmodifies": true, "looplet": true, "loopuse": true, "stepassert": true, "bits": true, "end": true, "macro": true, "cases": true, "ghostview": true, "assumedensures": true,
 }
 
 var tagRe = regexp.MustCompile(`^([a-z]+)(\[([A-Za-z0-9_,]+)\])?(\s+|$)`)
@@ -383,6 +387,8 @@ func (cs *Contracts) parseFile(file, pkg, src string) error {
 					}
 				case "havoc":
 					loop.Havoc = true
+				case "isolated":
+					loop.Isolated = true
 				case "as":
 					if i+1 < len(parts) {
 						loop.Alias = parts[i+1]
@@ -401,6 +407,24 @@ func (cs *Contracts) parseFile(file, pkg, src string) error {
 				return fmt.Errorf("%s:%d: havoc outside loop", file, r.line)
 			}
 			loop.Havoc = true
+		case "stepassert":
+			if loop == nil {
+				return fmt.Errorf("%s:%d: stepassert outside loop", file, r.line)
+			}
+			c, err := mk(r)
+			if err != nil {
+				return err
+			}
+			loop.Asserts = append(loop.Asserts, c)
+		case "loopuse":
+			if loop == nil {
+				return fmt.Errorf("%s:%d: loopuse outside loop", file, r.line)
+			}
+			c, err := mk(r)
+			if err != nil {
+				return err
+			}
+			loop.Uses = append(loop.Uses, c)
 		case "invariant", "decreases", "loopmodifies":
 			if loop == nil {
 				return fmt.Errorf("%s:%d: %s outside loop", file, r.line, r.kw)
@@ -449,6 +473,8 @@ func (cs *Contracts) parseFile(file, pkg, src string) error {
 				fc.Requires = append(fc.Requires, c)
 			case "ensures":
 				fc.Ensures = append(fc.Ensures, c)
+			case "assumedensures":
+				fc.AssumedEnsures = append(fc.AssumedEnsures, c)
 			case "panics":
 				fc.Panics = append(fc.Panics, c)
 			case "modifies":
